@@ -222,6 +222,33 @@ def run(ctx):
         if s != 0:
             ctx.report("definition-order", "yardl emits a definition before a definition of the same namespace that it uses", rep)
 
+    # import graphs: chains where the top package does not import the leaf itself, and every order of an import list of which one
+    # entry is also reached through another entry; every generated Python package must import, the C++ must be valid
+    import itertools
+    leaf = "Tl: !record\n  fields:\n    x: int32\n    y: float32*\n\nEl: !enum\n  values: [p, q]\n"
+    graphs = [("chain", {"leaf": ("Leaf", [], leaf),
+                         "mid": ("Mid", ["leaf"], "Tm: !record\n  fields:\n    l: Leaf.Tl\n    e: Leaf.El\n\nGm<T>: !record\n  fields:\n    v: T\n    l: Leaf.Tl?\n"),
+                         "top": ("Top", ["mid"], "Tt: !record\n  fields:\n    m: Mid.Tm\n    g: Mid.Gm<int32>\n    a: Mid.Tm[]\n\nPt: !protocol\n  sequence:\n    t: Tt\n    s: !stream\n      items: Mid.Tm\n")}, "top")]
+    for perm in itertools.permutations(["b", "d", "e"]):
+        graphs.append(("order-" + "".join(perm),
+                       {"d": ("Dd", [], "Td: !record\n  fields:\n    x: int32\n"),
+                        "e": ("Ee", [], "Te: !record\n  fields:\n    s: string\n"),
+                        "b": ("Bb", ["d"], "Tb: !record\n  fields:\n    d: Dd.Td\n"),
+                        "root": ("Root", list(perm), "Tr: !record\n  fields:\n    b: Bb.Tb\n    d: Dd.Td\n    e: Ee.Te\n    a: Ee.Te[]\n\nPr: !protocol\n  sequence:\n    r: Tr\n")}, "root"))
+    for gname, pkgs, top in graphs:
+        d = os.path.join(ctx.scratch, "gr_" + gname)
+        for pd, (ns, imps, text) in pkgs.items():
+            os.makedirs(os.path.join(d, pd))
+            cfgt = cfg_for({"generateHDF5": False}) if pd == top else ""
+            open(os.path.join(d, pd, "_package.yml"), "w").write("namespace: %s\n" % ns + ("imports:\n" + "".join("  - ../%s\n" % i for i in imps) if imps else "") + cfgt)
+            open(os.path.join(d, pd, "m.yml"), "w").write(text)
+        rc, o, e = sh([ctx.yardl, "generate"], cwd=os.path.join(d, top), timeout=180)
+        rep = {"graph": gname, "packages": {k: {"namespace": v[0], "imports": v[1], "model": v[2]} for k, v in pkgs.items()}, "generate_in": top}
+        if rc != 0:
+            ctx.report("generate-fails:import-graph", "yardl rejects/fails on a valid import graph (%s): %s" % (gname, (o + e)[-200:]), rep)
+            continue
+        check_tree(ctx, d, pkgs[top][0], "import-graph:" + gname.split("-")[0], rep)
+
     # shapes with a history of trouble in one target: sequences of bool, maps keyed by types without std::hash
     shapes = [("cpp-bool-sequence", "Pb: !protocol\n  sequence:\n    a: !stream\n      items: bool\n    b: bool*\n    c: bool*3\n"),
               ("cpp-map-key-no-hash", "Pm: !protocol\n  sequence:\n    c: date->int32\n    e: time->string\n    f: datetime->string\n"),
